@@ -298,7 +298,7 @@ def c08(lines, out):
                 _, mods = parse_dump(r.dump)
                 if mods.get(t[2], {}).get('state') == 'R':
                     told.setdefault(t[2], []).append(t[3])
-            if t[0] == 'pill' and r.result == '0':
+            if t[0] == 'pill' and r.result == '0' and t[2] not in pend:      # (the first pending pill is the one that stops it)
                 pend[t[2]] = [p for p in told.get(t[2], []) if p not in got.get(t[2], set())]
             if t[0] in ('stop', 'dereg', 'ctx_dereg', 'start') and r.dump:
                 _, mods = parse_dump(r.dump)
